@@ -37,14 +37,14 @@ def retry(
     def decorator(func: C) -> C:
         @wraps(func)
         def wrapper(*args, **kwargs) -> Any:
-            return retry_func(
+            return _retry(
                 func,
-                *args,
+                args,
+                kwargs,
                 attempts=attempts,
                 exceptions=exceptions,
                 sleep_time=sleep_time,
                 logger=logger,
-                **kwargs,
             )
         return wrapper
     return decorator
@@ -58,6 +58,26 @@ def retry_func(
     sleep_time: timedelta = timedelta(seconds=0),
     logger: Logger = None,
     **kwargs: P.kwargs,
+) -> R:
+    return _retry(
+        func,
+        args,
+        kwargs,
+        attempts=attempts,
+        exceptions=exceptions,
+        sleep_time=sleep_time,
+        logger=logger,
+    )
+
+
+def _retry(
+    func: Callable[..., R],
+    args: tuple[Any, ...],
+    kwargs: dict[str, Any],
+    attempts: int,
+    exceptions: type[Exception] | tuple[type[Exception], ...],
+    sleep_time: timedelta,
+    logger: Logger | None,
 ) -> R:
     attempt = 1
 
